@@ -23,7 +23,8 @@ KSHAPES_Q = [(0, 0, 0, 0), (1, 1, 1, 1), (3, 3, 3, 3), (2, 2, 2, 2), (4, 4, 4, 4
 EL12 = ['H', 'C', 'N', 'O', 'F', 'Si', 'P', 'S', 'Cl', 'Zn', 'Br', 'Zr']
 ATYPES = [('twelve types (two-digit type ids)', [11, 1, 9, 10], EL12, [1.00794, 12.0107, 14.0067, 15.9994, 18.9984032, 28.0855, 30.973762, 32.065, 35.453, 65.38, 79.904, 91.224]), ('two types', [0, 1, 1, 0], ['C', 'N'], [12.0107, 14.0067]), ('one type', [0, 0, 0, 0], ['C'], [12.0107]),
           ('three types, last one unused', [0, 1, 1, 0], ['C', 'N', 'O'], [12.0107, 14.0067, 15.9994]), ('non-atomic masses', [1, 0, 0, 1], ['X', 'Y'], [100.25, 3.5])]
-LABELS = [('element-like', lambda els: list(els)), ('UFF-like', lambda els: [e + '_R' for e in els]), ('with blanks', lambda els: [e + ' %d' % i for i, e in enumerate(els)])]
+LABELS = [('element-like', lambda els: list(els)), ('UFF-like', lambda els: [e + '_R' for e in els]), ('with blanks', lambda els: [e + ' %d' % i for i, e in enumerate(els)]),
+          ('one empty label among UFF-like ones', lambda els: [('' if i == 1 else e + '_R') for i, e in enumerate(els)])]
 CHARGES = [[0, 0, 0, 0], [-0.8234567, 12.5, 0, 1e-7], [1, -1, 0.5, -0.5]]
 COORDS = [('inside', np.array([(1, 1, 1), (2.5, 1, 1), (2.5, 2.25, 1.125), (9.5, 10, 0.5)])), ('negative', -np.array([(1, 1, 1), (2.5, 1, 1), (2.5, 2.25, 1.125), (13.5, 1, 0.5)])),
           ('beyond the box', np.array([(11, 12, 13), (22.5, -1, 1), (2.5, 2.25, 100.125), (0, 0, 0)])),
@@ -41,11 +42,18 @@ def plan(tier, seed):
                 for co in range(len(COEFFS)):
                     for ch in (range(2) if q else range(3)):
                         for xy in ((0, 1, 3) if q else range(4)):
-                            for lab in (range(2) if q else range(3)):
+                            for lab in (range(2) if q else range(4)):
                                 for st in range(2):
                                     at = (co + ch + xy + lab) % len(ATYPES) if q else None
                                     for a in ([at] if q else range(len(ATYPES))):
                                         scs.append(dict(cell=ci, ks=list(ks), tables=tables, co=co, ch=ch, xy=xy, lab=lab, at=a, st=st))
+    if q:
+        for ci in range(len(CELLS)):
+            for ks in KSHAPES_Q[::2]:
+                for tables in (1, 0):
+                    for st in range(2):
+                        for lab in (2, 3):
+                            scs.append(dict(cell=ci, ks=list(ks), tables=tables, co=1, ch=1, xy=0, lab=lab, at=(ci + lab) % len(ATYPES), st=st))
     if not q:
         for ks in itertools.product(range(len(KOPT)), repeat=4):
             for ci in range(len(CELLS)):
